@@ -40,3 +40,22 @@ check('C18',
       'implementation.',
       TB + 'LP portfolios only (the implementation reports no duals for MIPs).',
       'Coq proof (right-hand-side sensitivity from weak duality) + per-instance dual certificate', 'DESIGN.md 5 C18')
+check('C05',
+      'Theorems C05_storage_physics / C05_level_rows (every storage, any number of steps of any length, inflow, efficiency, one or two '
+      'nodes, window): every feasible point of the problem the model builder returns keeps the physical level in [0,size], ends at '
+      'the end level and respects rate x step length; C05_no_simultaneous for the binary mode rows. The storage builder is compared '
+      'with Storage.setup_optim_problem (c, l, u, rows, mapping; incl. no_simult, max_store_duration, coarse frequency, windows, '
+      'price), Storage.fill_level with the model level at box points; on every solved portfolio the physical level, rates, end level, '
+      'reported fill level / charge / discharge, exclusivity and holding duration are recomputed from the returned x.',
+      TB + 'Time blocks are not modelled as rows (implementation oracle only); max_store_duration with non-zero start/end level or '
+      'inflow and block_size with inflow or start != end level are known findings of the unchanged tree.',
+      'Coq proof (cumulative-sum rows => level bounds) + differential correspondence + implementation oracle', 'DESIGN.md 5 C05')
+check('C19',
+      'Theorems on the grid model (any points): dt = elapsed time / unit, dt > 0 for increasing points, Dt = prefix sums, restricted '
+      'grid = index-consistent subset of [s,e) in order with the sub-arrays, coarse groups cover every fine step of a spanned window '
+      'and coarse dt is the sum, values_to_grid gives the value of the unique containing interval / None outside / rejects overlap. '
+      'Grid.v is compared with Timegrid (timepoints, dt, Dt, I, restricted and coarse grids, values_to_grid incl. rejection) on DST '
+      'and anchored-frequency grids in four zones; the calendar hypotheses (strictly increasing, first point = start, before end) and '
+      'price pass-through are evaluated on the implementation on every case.',
+      TB + 'pd.date_range / tz database are the calendar oracle (evaluated independently in harness/modelspec.py).',
+      'Coq proof + differential correspondence + hypothesis checks on the implementation', 'DESIGN.md 5 C19')
